@@ -300,7 +300,11 @@ impl SvgElement {
         let phantom = matches!(self.name.as_str(), "point" | "box");
 
         if self.has_attr("text") {
-            let (orig_elem, text_elements) = process_text_attr(self)?;
+            let use_bbox = match self.name.as_str() {
+                "use" => ctx.get_element_bbox(self)?,
+                _ => None,
+            };
+            let (orig_elem, text_elements) = process_text_attr(self, use_bbox)?;
             if orig_elem.name != "text" && !phantom {
                 // We only care about the original element if it wasn't a text element
                 // (otherwise we generate a useless empty text element for the original)
